@@ -73,6 +73,7 @@ PROBES = [
     ('probe:aggregated-field-before-rest', 'Q(a:, b? += x, ..r) distinct :- T(a:, x:, ..r);'),
     ('probe:only-aggregated-fields-before-rest', 'Q(b? Max= x, c? += 1, ..r) distinct :- T(x:, ..r);'),
     ('probe:positional-then-rest', 'Q(x, y, ..r) :- T(x, y, ..r), R(..r);'),
+    ('probe:empty-parentheses-as-combine-body', 'Q() :- x ArgMax= (a :- ());'),
     ('probe:line-break-in-single-quoted-string', "P('a\nb');"),
 ]
 
@@ -89,6 +90,8 @@ def classify(text):
     return 'diff:empty-subscript'
   if re.search(r'[A-Za-z0-9]_(limit|order_by)\s*\(', text):
     return 'diff:denotation-inside-identifier'
+  if re.search(r':-\s*\(\s*\)', text):
+    return 'diff:empty-parentheses-as-body'
   return None
 
 
